@@ -1,5 +1,10 @@
 namespace Gomjml.Cache
-/-! Prototype for C13/C14: the AST cache refines the stateless compiler. -/
+/-! Model of the AST cache (`mjml/render.go`: `parseAST`, `startASTCacheCleanup`, `StopASTCacheCleanup`,
+    the two once-only setters) and its refinement to the stateless compiler.  C13 / C14 / the cleanup half of C15.
+
+    Time is an integer clock; `hash`, `parse`, `rend` are parameters (`World`).  The store is a function
+    `CKey → Option Entry` (a `sync.Map`).  Ghost fields (`stored`, `ttlAt`, `spawned`, `cancelled`) exist only to
+    state invariants. -/
 
 abbrev Doc := Nat
 abbrev CKey := Nat
@@ -11,17 +16,38 @@ structure Entry where
   ast : Ast
   expires : Int
   stored : Int          -- ghost: when it was stored
-deriving Repr
+  ttlAt : Int           -- ghost: the TTL in force when it was stored
+deriving Repr, DecidableEq
+
+deriving instance DecidableEq for Except
+
+/-- `minASTCacheCleanupInterval` (one second, in nanoseconds) -/
+def minInterval : Int := 1000000000
 
 structure CS where
   store : CKey → Option Entry
   now : Int
   ttl : Int
+  interval : Int            -- astCacheCleanupInterval
+  ttlDone : Bool            -- astCacheTTLOnce fired
+  intDone : Bool            -- astCacheCleanupOnce fired
+  cleaner : Bool            -- cleanupCancel != nil: a live (uncancelled) cleanup goroutine is registered
+  spawned : Nat             -- ghost: cleanup goroutines started so far
+  cancelled : Nat           -- ghost: cleanup goroutines cancelled so far
+  parses : Nat              -- ghost: calls of the parser so far
+
+/-- process start: empty cache, TTL 5 min, interval TTL/2, nothing configured, no cleaner -/
+def init (ttl : Int := 300000000000) : CS :=
+  { store := fun _ => none, now := 0, ttl := ttl, interval := ttl.tdiv 2, ttlDone := false, intDone := false,
+    cleaner := false, spawned := 0, cancelled := 0, parses := 0 }
 
 inductive Op
   | render (d : Doc) (cached : Bool)
   | advance (δ : Nat)
-  | tick                    -- one sweep of the cleanup goroutine
+  | tick                    -- one sweep of the cleanup goroutine (only a live cleaner sweeps)
+  | stop                    -- StopASTCacheCleanup
+  | setTTL (d : Int)        -- SetASTCacheTTLOnce
+  | setInterval (d : Int)   -- SetASTCacheCleanupIntervalOnce
 deriving Repr
 
 /-- parameters: the parser, the (pure, AST-preserving: C16) renderer, the hash -/
@@ -34,12 +60,25 @@ def spec (w : World) (d : Doc) : Except Err Html := (w.parse d).map w.rend
 
 def miss (w : World) (s : CS) (d : Doc) : CS × Except Err Html :=
   match w.parse d with
-  | .ok a => ({ s with store := fun k => if k = w.hash d then some ⟨a, s.now + s.ttl, s.now⟩ else s.store k }, .ok (w.rend a))
-  | .error e => (s, .error e)
+  | .ok a => ({ s with store := fun k => if k = w.hash d then some ⟨a, s.now + s.ttl, s.now, s.ttl⟩ else s.store k,
+                       parses := s.parses + 1 }, .ok (w.rend a))
+  | .error e => ({ s with parses := s.parses + 1 }, .error e)
+
+/-- `startASTCacheCleanup`: register a cleaner unless one is registered -/
+def arm (s : CS) : CS := if s.cleaner then s else { s with cleaner := true, spawned := s.spawned + 1 }
+
+/-- the duration handed to `time.NewTicker` by a cleaner that starts now -/
+def tickerArg (s : CS) : Int := if s.interval ≤ 0 then minInterval else s.interval
+
+def sweep (s : CS) : CS :=
+  { s with store := fun k => match s.store k with
+                             | some e => if s.now > e.expires then none else some e
+                             | none => none }
 
 def step (w : World) (s : CS) : Op → CS × Option (Except Err Html)
-  | .render d false => (s, some (spec w d))
+  | .render d false => ({ s with parses := s.parses + 1 }, some (spec w d))
   | .render d true =>
+    let s := arm s
     match s.store (w.hash d) with
     | some e =>
       if s.now < e.expires then (s, some (.ok (w.rend e.ast)))                       -- hit: nothing changes
@@ -49,18 +88,40 @@ def step (w : World) (s : CS) : Op → CS × Option (Except Err Html)
         (r.1, some r.2)
     | none => let r := miss w s d; (r.1, some r.2)
   | .advance δ => ({ s with now := s.now + δ }, none)
-  | .tick => ({ s with store := fun k => match s.store k with
-                                      | some e => if s.now > e.expires then none else some e
-                                      | none => none }, none)
+  | .tick => (if s.cleaner then sweep s else s, none)
+  | .stop => (if s.cleaner then { s with cleaner := false, cancelled := s.cancelled + 1 } else s, none)
+  | .setTTL d =>
+    (if s.ttlDone then s
+     else { s with ttl := d, interval := if s.interval = s.ttl.tdiv 2 then d.tdiv 2 else s.interval, ttlDone := true }, none)
+  | .setInterval d => (if s.intDone then s else { s with interval := d, intDone := true }, none)
 
 structure CInv (w : World) (s : CS) : Prop where
   sound : ∀ k e, s.store k = some e → ∃ d, w.hash d = k ∧ w.parse d = .ok e.ast
-  stamp : ∀ k e, s.store k = some e → e.expires = e.stored + s.ttl ∧ e.stored ≤ s.now
+  stamp : ∀ k e, s.store k = some e → e.expires = e.stored + e.ttlAt ∧ e.stored ≤ s.now
+  life : s.spawned = s.cancelled + (if s.cleaner then 1 else 0)
+
+theorem inv_init (w : World) (ttl : Int) : CInv w (init ttl) := by
+  constructor <;> simp [init]
+
+theorem arm_inv (w : World) (s : CS) (h : CInv w s) : CInv w (arm s) := by
+  unfold arm
+  split
+  · exact h
+  · rename_i hc
+    constructor
+    · exact h.sound
+    · exact h.stamp
+    · have := h.life; simp [hc] at this; simp [this]
+
+@[simp] theorem arm_store (s : CS) : (arm s).store = s.store := by unfold arm; split <;> rfl
+@[simp] theorem arm_now (s : CS) : (arm s).now = s.now := by unfold arm; split <;> rfl
+@[simp] theorem arm_ttl (s : CS) : (arm s).ttl = s.ttl := by unfold arm; split <;> rfl
+@[simp] theorem arm_cleaner (s : CS) : (arm s).cleaner = true := by unfold arm; split <;> simp_all
 
 theorem miss_inv (w : World) (s : CS) (d : Doc) (h : CInv w s) : CInv w (miss w s d).1 := by
   unfold miss
   cases hp : w.parse d with
-  | error e => simpa using h
+  | error e => exact ⟨h.sound, h.stamp, h.life⟩
   | ok a =>
     constructor
     · intro k e hk
@@ -73,6 +134,7 @@ theorem miss_inv (w : World) (s : CS) (d : Doc) (h : CInv w s) : CInv w (miss w 
       split at hk
       · simp at hk; subst hk; simp
       · exact h.stamp k e hk
+    · exact h.life
 
 theorem miss_out (w : World) (s : CS) (d : Doc) : (miss w s d).2 = spec w d := by
   unfold miss spec
@@ -82,48 +144,74 @@ theorem step_inv (w : World) (s : CS) (op : Op) (h : CInv w s) : CInv w (step w 
   cases op with
   | render d c =>
     cases c
-    · simpa [step] using h
+    · exact ⟨h.sound, h.stamp, h.life⟩
     · simp only [step]
-      cases hs : s.store (w.hash d) with
-      | none => exact miss_inv w s d h
+      have ha := arm_inv w s h
+      cases hs : (arm s).store (w.hash d) with
+      | none => exact miss_inv w _ d ha
       | some e =>
         simp only
         split
-        · exact h
+        · exact ha
         · apply miss_inv
           constructor
           · intro k e' hk; simp only at hk; split at hk
             · simp at hk
-            · exact h.sound k e' hk
+            · exact ha.sound k e' hk
           · intro k e' hk; simp only at hk; split at hk
             · simp at hk
-            · exact h.stamp k e' hk
+            · exact ha.stamp k e' hk
+          · exact ha.life
   | advance δ =>
     constructor
     · exact h.sound
     · intro k e hk
       have := h.stamp k e hk
       exact ⟨this.1, by simp only [step]; omega⟩
+    · exact h.life
   | tick =>
-    constructor
-    · intro k e hk
-      simp only [step] at hk
-      cases hs : s.store k with
-      | none => simp [hs] at hk
-      | some e0 =>
-        simp only [hs] at hk
-        split at hk
-        · simp at hk
-        · simp at hk; subst hk; exact h.sound k e0 hs
-    · intro k e hk
-      simp only [step] at hk
-      cases hs : s.store k with
-      | none => simp [hs] at hk
-      | some e0 =>
-        simp only [hs] at hk
-        split at hk
-        · simp at hk
-        · simp at hk; subst hk; exact h.stamp k e0 hs
+    simp only [step]
+    split
+    · constructor
+      · intro k e hk
+        simp only [sweep] at hk
+        cases hs : s.store k with
+        | none => simp [hs] at hk
+        | some e0 =>
+          simp only [hs] at hk
+          split at hk
+          · simp at hk
+          · simp at hk; subst hk; exact h.sound k e0 hs
+      · intro k e hk
+        simp only [sweep] at hk
+        cases hs : s.store k with
+        | none => simp [hs] at hk
+        | some e0 =>
+          simp only [hs] at hk
+          split at hk
+          · simp at hk
+          · simp at hk; subst hk; exact h.stamp k e0 hs
+      · exact h.life
+    · exact h
+  | stop =>
+    simp only [step]
+    split
+    · rename_i hc
+      constructor
+      · exact h.sound
+      · exact h.stamp
+      · have := h.life; simp [hc] at this; simp; omega
+    · exact h
+  | setTTL d =>
+    simp only [step]
+    split
+    · exact h
+    · exact ⟨h.sound, h.stamp, h.life⟩
+  | setInterval d =>
+    simp only [step]
+    split
+    · exact h
+    · exact ⟨h.sound, h.stamp, h.life⟩
 
 /-- **C13**: with a collision-free hash, every compilation — cached or not, whatever happened before —
     returns what the stateless compiler returns. -/
@@ -133,12 +221,13 @@ theorem step_transparent (w : World) (hinj : ∀ d d', w.hash d = w.hash d' → 
   cases c
   · simp [step]
   · simp only [step]
-    cases hs : s.store (w.hash d) with
+    have ha := arm_inv w s h
+    cases hs : (arm s).store (w.hash d) with
     | none => simp [miss_out]
     | some e =>
       simp only
       split
-      · obtain ⟨d', hk, hp⟩ := h.sound _ e hs
+      · obtain ⟨d', hk, hp⟩ := ha.sound _ e hs
         have := hinj d' d hk; subst this
         simp [spec, hp, Except.map]
       · simp [miss_out]
@@ -152,6 +241,11 @@ def expected (w : World) : List Op → List (Option (Except Err Html))
   | .render d _ :: r => some (spec w d) :: expected w r
   | _ :: r => none :: expected w r
 
+theorem step_nonrender_out (w : World) (s : CS) (op : Op) (h : ∀ d c, op ≠ .render d c) : (step w s op).2 = none := by
+  cases op with
+  | render d c => exact absurd rfl (h d c)
+  | _ => rfl
+
 theorem C13_transparent (w : World) (hinj : ∀ d d', w.hash d = w.hash d' → d = d') :
     ∀ (ops : List Op) (s : CS), CInv w s → (runOps w s ops).2 = expected w ops := by
   intro ops
@@ -164,18 +258,53 @@ theorem C13_transparent (w : World) (hinj : ∀ d d', w.hash d = w.hash d' → d
     | render d c =>
       simp only [runOps, expected]
       rw [step_transparent w hinj s h d c, ih _ hi]
-    | advance δ => simp only [runOps, expected, step]; rw [ih _ (by simpa [step] using hi)]
+    | advance δ => simp only [runOps, expected]; rw [show (step w s (.advance δ)).2 = none from rfl, ih _ hi]
     | tick => simp only [runOps, expected]; rw [show (step w s .tick).2 = none from rfl, ih _ hi]
+    | stop => simp only [runOps, expected]; rw [show (step w s .stop).2 = none from rfl, ih _ hi]
+    | setTTL d => simp only [runOps, expected]; rw [show (step w s (.setTTL d)).2 = none from rfl, ih _ hi]
+    | setInterval d => simp only [runOps, expected]; rw [show (step w s (.setInterval d)).2 = none from rfl, ih _ hi]
 
-/-- **C14**: reuse happens strictly before expiry; a hit changes nothing (so it cannot extend the expiry);
-    after a sweep no entry is past its expiry. -/
+/-- every state reachable from process start satisfies the invariant -/
+theorem inv_reachable (w : World) (ttl : Int) (ops : List Op) : CInv w (runOps w (init ttl) ops).1 := by
+  suffices ∀ s, CInv w s → CInv w (runOps w s ops).1 from this _ (inv_init w ttl)
+  induction ops with
+  | nil => intro s h; exact h
+  | cons op r ih => intro s h; simp only [runOps]; exact ih _ (step_inv w s op h)
+
+/-- **C14**: reuse happens strictly before expiry; a hit changes nothing in the store (so it cannot extend
+    the expiry); at or after expiry the entry is dropped and the document parsed again -/
 theorem hit_no_change (w : World) (s : CS) (d : Doc) (e : Entry) (hs : s.store (w.hash d) = some e)
-    (hnow : s.now < e.expires) : (step w s (.render d true)).1 = s := by
+    (hnow : s.now < e.expires) : (step w s (.render d true)).1 = arm s := by
   simp [step, hs, hnow]
 
-theorem after_tick (w : World) (s : CS) (k : CKey) (e : Entry)
+theorem expired_reparsed (w : World) (s : CS) (d : Doc) (e : Entry) (hs : s.store (w.hash d) = some e)
+    (hnow : e.expires ≤ s.now) (a : Ast) (hp : w.parse d = .ok a) :
+    (step w s (.render d true)).1.store (w.hash d) = some ⟨a, s.now + s.ttl, s.now, s.ttl⟩ := by
+  have : ¬ s.now < e.expires := by omega
+  simp [step, hs, this, miss, hp]
+
+theorem failed_parse_not_cached (w : World) (s : CS) (d : Doc) (er : Err) (hp : w.parse d = .error er)
+    (hs : s.store (w.hash d) = none) : (step w s (.render d true)).1.store (w.hash d) = none := by
+  simp [step, hs, miss, hp]
+
+/-- a hit does not call the parser; a miss (absent or expired) calls it exactly once -/
+theorem hit_no_parse (w : World) (s : CS) (d : Doc) (e : Entry) (hs : s.store (w.hash d) = some e)
+    (hnow : s.now < e.expires) : (step w s (.render d true)).1.parses = s.parses := by
+  have harm : (arm s).parses = s.parses := by unfold arm; split <;> rfl
+  simp only [step, arm_store, hs, arm_now, hnow, if_true, harm]
+theorem miss_one_parse (w : World) (s : CS) (d : Doc)
+    (hs : s.store (w.hash d) = none ∨ ∃ e, s.store (w.hash d) = some e ∧ e.expires ≤ s.now) :
+    (step w s (.render d true)).1.parses = s.parses + 1 := by
+  have harm : (arm s).parses = s.parses := by unfold arm; split <;> rfl
+  rcases hs with hs | ⟨e, hs, he⟩
+  · simp only [step, arm_store, hs, miss]; cases w.parse d <;> simp [harm]
+  · have : ¬ s.now < e.expires := by omega
+    simp only [step, arm_store, hs, arm_now, this, if_false, miss]; cases w.parse d <;> simp [harm]
+
+/-- after a sweep by a live cleaner no entry is past its expiry -/
+theorem after_tick (w : World) (s : CS) (hc : s.cleaner = true) (k : CKey) (e : Entry)
     (h : (step w s .tick).1.store k = some e) : e.expires ≥ s.now := by
-  simp only [step] at h
+  simp only [step, hc, if_true, sweep] at h
   cases hs : s.store k with
   | none => simp [hs] at h
   | some e0 =>
@@ -183,5 +312,51 @@ theorem after_tick (w : World) (s : CS) (k : CKey) (e : Entry)
     split at h
     · simp at h
     · simp at h; subst h; omega
+
+/-- **configuration is total**: whatever durations are configured, the ticker is created with a positive one -/
+theorem ticker_positive (s : CS) : 0 < tickerArg s := by
+  unfold tickerArg minInterval; split <;> omega
+
+/-- once-only setters: the first call takes effect, later calls are ignored -/
+theorem setTTL_once (w : World) (s : CS) (d d' : Int) :
+    (step w (step w s (.setTTL d)).1 (.setTTL d')).1 = (step w s (.setTTL d)).1 := by
+  simp only [step]; split <;> simp_all
+theorem setInterval_once (w : World) (s : CS) (d d' : Int) :
+    (step w (step w s (.setInterval d)).1 (.setInterval d')).1 = (step w s (.setInterval d)).1 := by
+  simp only [step]; split <;> simp_all
+theorem setTTL_first (w : World) (s : CS) (d : Int) (h : s.ttlDone = false) : (step w s (.setTTL d)).1.ttl = d := by
+  simp [step, h]
+theorem setInterval_first (w : World) (s : CS) (d : Int) (h : s.intDone = false) :
+    (step w s (.setInterval d)).1.interval = d := by
+  simp [step, h]
+/-- the documented order (TTL first, then the interval) keeps the explicit interval -/
+theorem ttl_then_interval (w : World) (ttl d i : Int) :
+    (step w (step w (init ttl) (.setTTL d)).1 (.setInterval i)).1.interval = i := by
+  simp [step, init]
+/-- … and by default the interval is half the TTL -/
+theorem ttl_default_interval (w : World) (ttl d : Int) : (step w (init ttl) (.setTTL d)).1.interval = d.tdiv 2 := by
+  simp [step, init]
+
+/-- **cleanup lifecycle**: at most one live cleaner (the flag is a Boolean and `spawned − cancelled` equals it);
+    stopping cancels it; the next cached compilation starts exactly one -/
+theorem live_cleaners (w : World) (s : CS) (h : CInv w s) : s.spawned - s.cancelled ≤ 1 := by
+  have := h.life; split at this <;> omega
+theorem stop_then_none (w : World) (s : CS) : (step w s .stop).1.cleaner = false := by
+  simp only [step]; split <;> simp_all
+theorem use_after_stop_starts_one (w : World) (s : CS) (d : Doc) :
+    let s1 := (step w s .stop).1
+    let s2 := (step w s1 (.render d true)).1
+    s2.cleaner = true ∧ s2.spawned = s1.spawned + 1 := by
+  have h1 : (step w s .stop).1.cleaner = false := stop_then_none w s
+  generalize (step w s .stop).1 = s1 at h1
+  have harm : (arm s1).cleaner = true ∧ (arm s1).spawned = s1.spawned + 1 := by simp [arm, h1]
+  simp only [step]
+  cases hs : (arm s1).store (w.hash d) with
+  | none => simp only [miss]; cases w.parse d <;> simpa using harm
+  | some e =>
+    simp only
+    split
+    · exact harm
+    · simp only [miss]; cases w.parse d <;> simpa using harm
 
 end Gomjml.Cache
